@@ -1,7 +1,16 @@
-(* C11 — Comparison is an exact structural diff.  Statements only. *)
+(* C11 — Comparison is an exact structural diff.  Statements only; proofs in
+   Proofs/Compare{Base,Wf,Self,Swap,Total,Laws}.v.
+
+   [compare] (Model/Compare.v) is the transliteration of the comparing walker.  The
+   hypotheses: [schema_ok s R] -- R is a set of type references closed under descent
+   whose declared defaults are well formed (the references reachable from a root);
+   [family_refs s R] -- every list reached is associative or atomic (the generated
+   family).  The refinement to the reference diff (Spec/RefDiff.v) is not proved yet: it
+   is decided on the implementation's outcomes by the extracted checker. *)
 From Coq Require Import List ZArith String Bool.
 From SMD Require Import Model.Value Model.Order Model.PathElem Model.PathSet Model.Schema
-  Model.Compare Spec.Examples.
+  Model.Compare Spec.RefValid Spec.Examples Proofs.OrderLaws Proofs.PathSetLaws Proofs.SchemaOk
+  Proofs.CompareLaws.
 Import ListNotations.
 Open Scope string_scope.
 
@@ -15,3 +24,49 @@ Proof.
   eexists. split; [ vm_compute; reflexivity | split; reflexivity ].
 Qed.
 Print Assumptions C11_same_iff_equal_root_refuted.
+
+(* comparison never fails on valid operands (duplicates allowed) *)
+Theorem C11_total_on_valid_operands : forall s R tr l r,
+  schema_ok s R -> family_refs s R -> R tr -> wf_value l = true -> wf_value r = true ->
+  conforms s tr true l = true -> conforms s tr true r = true ->
+  exists c, compare s tr l r = Some c.
+Proof. exact compare_total. Qed.
+Print Assumptions C11_total_on_valid_operands.
+
+(* swapping the operands swaps added and removed and keeps modified *)
+Theorem C11_swap : forall s R tr l r c,
+  schema_ok s R -> R tr -> wf_value l = true -> wf_value r = true ->
+  compare s tr l r = Some c ->
+  exists c', compare s tr r l = Some c' /\
+    ps_equals (removed c') (added c) = true /\
+    ps_equals (added c') (removed c) = true /\
+    ps_equals (modified c') (modified c) = true.
+Proof. exact compare_swap. Qed.
+Print Assumptions C11_swap.
+
+(* an object compared with itself: all three sets are empty *)
+Theorem C11_equal_objects_compare_same : forall s R tr v c,
+  schema_ok s R -> R tr -> wf_value v = true -> compare s tr v v = Some c -> c3_is_same c = true.
+Proof. exact compare_self. Qed.
+Print Assumptions C11_equal_objects_compare_same.
+
+(* the three sets are well-formed field sets (so that C15 applies to them) *)
+Theorem C11_results_are_wf_sets : forall s R tr l r c,
+  schema_ok s R -> R tr -> wf_value l = true -> wf_value r = true ->
+  compare s tr l r = Some c ->
+  ps_ok (removed c) = true /\ ps_ok (modified c) = true /\ ps_ok (added c) = true.
+Proof. exact compare_sets_ok. Qed.
+Print Assumptions C11_results_are_wf_sets.
+
+(* without the family hypothesis totality is false: a "separable" list validates but
+   cannot be compared *)
+Theorem C11_total_needs_family : ~ (forall s R tr l r,
+  schema_ok s R -> R tr -> wf_value l = true -> wf_value r = true ->
+  conforms s tr true l = true -> conforms s tr true r = true -> exists c, compare s tr l r = Some c).
+Proof. exact compare_total_literal_refuted. Qed.
+Print Assumptions C11_total_needs_family.
+
+(* non-vacuity *)
+Theorem C11_hypotheses_satisfiable : schema_ok ex_schema ex_R /\ family_refs ex_schema ex_R /\ ex_R ex_rt.
+Proof. exact (conj ex_schema_ok (conj ex_family_refs ex_R_root)). Qed.
+Print Assumptions C11_hypotheses_satisfiable.
